@@ -15,6 +15,8 @@ import (
 	"syscall"
 	"time"
 
+	"github.com/coredhcp/coredhcp/config"
+	"github.com/coredhcp/coredhcp/plugins"
 	"github.com/coredhcp/coredhcp/handler"
 	"github.com/insomniacslk/dhcp/dhcpv4"
 	"github.com/insomniacslk/dhcp/dhcpv6"
@@ -29,6 +31,20 @@ type CfgCase struct {
 	Plugin string   `json:"plugin"`
 	V6     bool     `json:"v6,omitempty"`
 	Args   []string `json:"args"`
+	// ViaLoad: the plugin is listed in the protocol's section of a configuration and set up by
+	// plugins.LoadPlugins, as the server does (also under the protocol it does not support), and
+	// requests are run through the handler list it returns
+	ViaLoad bool `json:"viaload,omitempty"`
+}
+
+var registerOnce sync.Once
+
+func registerBuiltins() {
+	registerOnce.Do(func() {
+		for _, p := range plug.All {
+			_ = plugins.RegisterPlugin(p)
+		}
+	})
 }
 
 var (
@@ -245,6 +261,12 @@ func GenCfg(t *rapid.T) CfgCase {
 		}
 		c.Args = append(c.Args, tok)
 	}
+	if rapid.IntRange(0, 5).Draw(t, "via-load") == 0 {
+		c.ViaLoad = true
+		if rapid.IntRange(0, 2).Draw(t, "other-proto") == 0 {
+			c.V6 = !c.V6 // possibly a protocol the plugin has no setup function for
+		}
+	}
 	if pp.name == "range" && len(c.Args) >= 4 && rapid.IntRange(0, 39).Draw(t, "whole-space") == 0 {
 		c.Args[1], c.Args[2] = "0.0.0.0", "255.255.255.255"
 	}
@@ -371,6 +393,42 @@ func ExecCfg(c CfgCase) (res core.Result) {
 			c19Opens.Add(1)
 		}
 		args := resolveArgs(c.Args)
+		if c.ViaLoad {
+			registerBuiltins()
+			conf := config.New()
+			sec := &config.ServerConfig{Plugins: []config.PluginConfig{{Name: c.Plugin, Args: args}}}
+			if c.V6 {
+				conf.Server6 = sec
+			} else {
+				conf.Server4 = sec
+			}
+			l4, l6, lerr := plugins.LoadPlugins(conf)
+			err = lerr
+			if err == nil {
+				// the handler list is run the way HandleMsg4/6 run it
+				h4 = func(req, resp *dhcpv4.DHCPv4) (*dhcpv4.DHCPv4, bool) {
+					stop := false
+					for _, h := range l4 {
+						resp, stop = h(req, resp)
+						if stop {
+							break
+						}
+					}
+					return resp, stop
+				}
+				h6 = func(req, resp dhcpv6.DHCPv6) (dhcpv6.DHCPv6, bool) {
+					stop := false
+					for _, h := range l6 {
+						resp, stop = h(req, resp)
+						if stop {
+							break
+						}
+					}
+					return resp, stop
+				}
+			}
+			return
+		}
 		if c.V6 {
 			h6, err = p.Setup6(args...)
 		} else {
